@@ -9,6 +9,7 @@ import Pff.Model.Facade
 import Pff.Model.Merge
 import Pff.Model.Rfigc
 import Pff.Model.Ecc
+import Pff.Model.Entry
 /-!
 Line-protocol driver: one request per line on stdin, one canonical reply per line on stdout.
 Run with `lake env lean --run Pff/Driver.lean`. Byte strings are hex ("-" = empty); lists of
@@ -190,8 +191,70 @@ def showFileResult (r : Pff.Ecc.FileResult) : String :=
   let o := match r.output with | none => "none" | some b => toHex b
   s!"{o} {if r.corrupted then 1 else 0} {if r.complete then 1 else 0} {if r.partialRep then 1 else 0}"
 
+/-! ### entry level -/
+
+def parseETab (toks : List String) : Option (List ((Nat × List Nat) × List Nat)) :=
+  toks.mapM (fun t => match t.splitOn ":" with
+    | [k, m, e] => do some (((← k.toNat?), (← parseHex m)), (← parseHex e))
+    | _ => none)
+
+def opsWithEnc (et : List ((Nat × List Nat) × List Nat)) (ct : List ((Nat × List Nat × List Nat) × Bool))
+    (dt : List ((Nat × List Nat × List Nat) × Option (List Nat × List Nat))) : Pff.Ecc.Ops :=
+  { opsOfTables [] ct dt with
+    enc := fun k m => match et.find? (fun x => x.1 == (k, m)) with | some x => x.2 | none => [998] }
+
+def parseParts (t : String) : Option Pff.Entry.EntryParts :=
+  match t.splitOn ":" with
+  | [a, b, c, d, e] => do
+    some { path := (← parseHex a), sizeTxt := (← parseHex b), pathEcc := (← parseHex c), sizeEcc := (← parseHex d), track := (← parseHex e) }
+  | _ => none
+
 def handle (toks : List String) : String :=
   match toks with
+  | ["efields", e] =>
+    match parseHex e with
+    | some e =>
+      let f := Pff.Entry.entryFields e
+      s!"{toHex f.path} {toHex f.sizeRaw} {toHex f.pathEcc} {toHex f.sizeEcc} {f.trackOff} {f.stripped}"
+    | none => "bad-op"
+  | ["digits", n] =>
+    match n.toNat? with
+    | some n => toHex (Pff.Entry.digitsOf n)
+    | none => "bad-op"
+  | ["pyint", b] =>
+    match parseHex b with
+    | some b => match Pff.Entry.pyInt b with | some n => toString n | none => "ValueError"
+    | none => "bad-op"
+  | "intra" :: tool :: k :: mbs :: field :: ecc :: rest =>
+    match k.toNat?, mbs.toNat?, parseHex field, parseHex ecc, splitAll ";" rest with
+    | some k, some mbs, some f, some e, [ct, dt] =>
+      match parseCTab ct, parseDTab dt with
+      | some ct, some dt =>
+        let O := opsOfTables [] ct dt
+        let r := if tool == "h" then Pff.Entry.correctIntraHeader O k mbs f e else Pff.Entry.correctIntraWhole O k mbs f e
+        s!"{toHex r.field} {if r.corrupted then 1 else 0} {if r.corrected then 1 else 0}"
+      | _, _ => "bad-op"
+    | _, _, _, _, _ => "bad-op"
+  | "intraenc" :: k :: field :: rest =>
+    match k.toNat?, parseHex field, parseETab rest with
+    | some k, some f, some et => toHex (Pff.Entry.intraEcc (opsWithEnc et [] []).enc k f)
+    | _, _, _ => "bad-op"
+  | "genecc" :: pre :: parts =>
+    match parseHex pre, parts.mapM parseParts with
+    | some pre, some ps =>
+      let idx := Pff.Entry.genIdx pre.length ps
+      s!"{toHex (Pff.Entry.genEcc pre ps)} {" ".intercalate (idx.map (fun ko => s!"{ko.1}:{ko.2}"))}"
+    | _, _ => "bad-op"
+  | "recidx" :: nIdx :: kIdx :: idx :: file :: rest =>
+    match nIdx.toNat?, kIdx.toNat?, parseHex idx, parseHex file, splitAll ";" rest with
+    | some nIdx, some kIdx, some idx, some file, [ct, dt] =>
+      match parseCTab ct, parseDTab dt with
+      | some ct, some dt =>
+        match Pff.Entry.recoverIdx (opsOfTables [] ct dt) nIdx kIdx idx file with
+        | some f => toHex f
+        | none => "abort"
+      | _, _ => "bad-op"
+    | _, _, _, _, _ => "bad-op"
   | "eccfileh" :: fast :: thr :: hl :: mbs :: k :: readLen :: content :: track :: rest =>
     match thr.toNat?, hl.toNat?, mbs.toNat?, k.toNat?, readLen.toNat?, parseHex content, parseHex track, splitAll ";" rest with
     | some thr, some hl, some mbs, some k, some readLen, some c, some t, [ht, ct, dt] =>
